@@ -616,6 +616,7 @@ def probe_multiplier_sequence():
     def factory(orig):
         @functools.wraps(orig)
         def w(resolutions, bases=None):
+            resolutions = list(resolutions)          # a one-shot iterable is materialised once, here, for both uses
             res = orig(resolutions, bases)
             try:
                 _count("multiplier_sequence")
